@@ -262,6 +262,13 @@ def build_scenarios(prop, tier, rnd):
                         {"op": "put", "k": 1, "c": "B"}, {"op": "del", "k": 2}]
                 add(pre + tail, {"kt": ["string", "u32"][j % 2], "n": n, "sync": True},
                     {"mode": "crash", "nested": False, "cont": True, "from": max(1, len(pre) - 2)}, chunk=j)
+        if prop == "C03":
+            # block abstraction: a range removal over MANY keys (more than any plausible internal batch) is still one
+            # operation; an image at every boundary inside it recovers to all-or-nothing
+            for j, (bn, dist, ck, wn) in enumerate([(1300, 1, True, 1000), (70, 7, False, 3)] if q else
+                                                   [(1300, 1, True, 1000), (70, 7, False, 3), (2100, 50, True, 500), (5000, 1, False, 10000),
+                                                    (300, 300, True, 7), (1025, 2, False, 2000), (4097, 3, True, 4096)]):
+                add([], {"kt": "string", "n": wn, "sync": j % 3 != 2}, {"mode": "bulk", "n": bn, "distinct": dist, "ckpt": ck})
         if prop == "C06":
             # a reader obtained before an overwrite / removal / re-put of the same content / reopen keeps
             # streaming the complete original content
